@@ -15,6 +15,7 @@ import (
 	"net/http"
 	"net/http/httptest"
 	"reflect"
+	"runtime"
 	"sync"
 	"time"
 	"unsafe"
@@ -317,6 +318,15 @@ type Submission struct {
 	answered  bool
 	err       error
 	answerTck int64
+	extra     []error // what the additional waiters (ArmWaiters) got from Get
+	extraN    int
+}
+
+// Waiters returns what the additional waiters of the submission observed.
+func (s *Submission) Waiters() []error {
+	s.mu.Lock()
+	defer s.mu.Unlock()
+	return append([]error(nil), s.extra...)
 }
 
 // Answer returns whether the promise has been observed resolved, with what, and the fake
@@ -351,6 +361,55 @@ func (r *Recorder) Counts() (subs, answered int) {
 	r.mu.Lock()
 	defer r.mu.Unlock()
 	return len(r.subs), r.answered
+}
+
+// ArmWaiters adds n more waiters to every unanswered submission (of one service, or of all
+// when k is ""). Each waits - spinning, not blocking - until the next INSERT returns, lets a
+// generated number of scheduler-free iterations pass (spin(j)) and only then calls Get for
+// the first time: first Get calls land around the instant the insert service resolves the
+// promises, where a promise that publishes "done" before its outcome, or a reader that
+// takes a shortcut, hands out a wrong answer. Every waiter must get the very same outcome.
+func (r *Recorder) ArmWaiters(k Kind, n int, spin func(j int) int) {
+	r.mu.Lock()
+	subs := append([]*Submission(nil), r.subs...)
+	r.mu.Unlock()
+	e0 := r.db.Ends()
+	for _, s := range subs {
+		s.mu.Lock()
+		skip := s.answered || s.extraN >= 12 || (k != "" && s.Kind != k)
+		if !skip {
+			s.extraN += n
+		}
+		s.mu.Unlock()
+		if skip {
+			continue
+		}
+		for j := 0; j < n; j++ {
+			s, iters := s, spin(j)
+			r.wg.Add(1)
+			go func() {
+				defer r.wg.Done()
+				dl := time.Now().Add(3 * time.Millisecond)
+				for i := 0; r.db.Ends() == e0; i++ {
+					if i%256 == 255 {
+						if time.Now().After(dl) {
+							break
+						}
+						runtime.Gosched()
+					}
+				}
+				x := 0
+				for i := 0; i < iters; i++ {
+					x += i
+				}
+				_ = x
+				_, err := s.promise.Get()
+				s.mu.Lock()
+				s.extra = append(s.extra, err)
+				s.mu.Unlock()
+			}()
+		}
+	}
 }
 
 // Settled tells whether every submission has been answered and no handler goroutine can
